@@ -413,6 +413,4 @@ def run(ctx):
     ctx.floor("C15.exact-or-refused", "generic Int/UInt delegation paths", n_int, 8)
 
     # the client decodes by the advertised column type and flags: they must be the declared ones (C09's definition layout)
-    import rules.C09 as C09
-    C09.run(ctx)
 
